@@ -253,6 +253,7 @@ def run(ctx):
     rescan_keeps_mode(ctx)
     directives_end_with_the_line(ctx)
     skipper_steps_over_literals(ctx)
+    header_names_not_macro_expanded(ctx)
 
 
 def manifest_keys(ctx):
@@ -464,3 +465,54 @@ def skipper_steps_over_literals(ctx):
            and any(c.get("k") == "call" and callee_short(c) == "get" for c in walk(n["then"]))]
     ctx.ob("R09.7", "skip_false_if_block|literal-branch|escapes", bool(esc), sk.loc(esc[0]) if esc else sk.loc(good),
            "a backslash inside the literal takes the next character with it%s" % ("" if esc else " - NOT: \"\\\"/*\" would open a comment"))
+
+
+def header_names_not_macro_expanded(ctx):
+    """R09.8: the operand of #include / __has_include is macro-expanded only when it is NOT already a header name
+    ([cpp.include]/4; `<sys/types.h>` with `#define sys 1` must stay what it is - expand_manifests() steps over "..." but
+    knows nothing of <...>).  Both sites guard the expansion: handle_include_directive by the first character,
+    expand_has_include_function by a flag that is set only when an identifier character is met OUTSIDE quotes and angle
+    brackets.  The call must stay behind such a guard at both sites.  (Seed S6-C09.)"""
+    db = ctx.db
+    ctx.rule("R09.8", "in handle_include_directive and expand_has_include_function the header-name text is handed to expand_manifests() only under a condition that excludes a literal <...> / \"...\" name (first character test, or a flag set only on unquoted identifier characters)")
+    n = 0
+    for short in ("handle_include_directive", "expand_has_include_function"):
+        f = db.fn(P + short)
+        calls = [c for c in f.walk() if c.get("k") == "call" and c.get("f") == P + "expand_manifests"]
+        if not calls:
+            ctx.ob("R09.8", "%s|no-expansion" % short, True, f.loc(), "does not expand the name at all")
+            continue
+        for i, c in enumerate(calls):
+            n += 1
+            arg = local_ref(c["a"][0]) if c.get("a") else None
+            ok = False
+            why = "unconditional"
+            for anc in f.ancestors(c):
+                if anc.get("k") != "if" or anc.get("c") is None:
+                    continue
+                # the call must be in the then-branch of this if
+                if not any(x is c for x in walk(anc.get("then") or {})):
+                    continue
+                cond = anc["c"]
+                # (i) first-character test of the same text against '<'
+                firsts = [y for y in walk(cond) if G.cmp_atom(y) and G.cmp_atom(y)[0] == "!=" and 60 in [const_int(z) for z in G.cmp_atom(y)[1:] if z is not None]]
+                if firsts:
+                    ok, why = True, "behind `%s`" % show(cond)[:50]
+                    break
+                # (ii) a flag set only where an identifier character was seen
+                fl = local_ref(peel(cond))
+                if fl is not None:
+                    sets = [y for y in f.walk() if assigned_target(y) and (local_ref(assigned_target(y)[0]) or {}).get("d") == fl["d"] and const_int(assigned_target(y)[1]) == 1]
+                    good = bool(sets)
+                    for sy in sets:
+                        under = False
+                        for a2 in f.ancestors(sy):
+                            if a2.get("k") == "if" and any(z.get("k") == "call" and callee_short(z) in ("isalnum", "isalpha") for z in walk(a2.get("c") or {})) \
+                                    and any(x is sy for x in walk(a2.get("then") or {})):
+                                under = True
+                        good = good and under
+                    if good:
+                        ok, why = True, "behind the flag `%s`, set only on identifier characters outside quotes" % fl.get("n")
+                        break
+            ctx.ob("R09.8", "%s|expand_manifests#%d|guarded" % (short, i), ok, f.loc(c), "expand_manifests(%s): %s" % (show(c["a"][0]) if c.get("a") else "?", why))
+    ctx.floor("R09.8", "expansions of a header-name operand", n, 2)
